@@ -101,8 +101,9 @@ def _fault_for(rng, cfg):
     if cfg["dest_kind"] == "remote":
         stage = gen.weighted(rng, [(6, "put_lost"), (3, "ack_lost")] + ([(4, "partial")] if cfg.get("non_atomic") else []))
         exc = rng.choice(["ConnectionError", "EIO", "TimeoutError", "EACCES"])
-        if stage == "partial" and exc == "EACCES":
-            exc = "EIO"  # permission errors are raised when opening, before any byte is written
+        # round 7: a partial put may also end in a permission error (credentials expiring in the middle of a
+        # multi-part upload): the transfer's "already there and write-protected" tolerance must not take the
+        # leftover for the object
     else:
         stages = [(5, "create"), (3, "mid"), (2, "rename")]
         if cfg["reflink"] == "cow" or cfg["hardlink"]:
@@ -181,6 +182,8 @@ def generate(prop, rng):
         cfg["via_push"] = bool(cfg["shallow"] and not cfg["hardlink"] and rng.random() < (0.5 if indexed else 0.3))
         if cfg["via_push"]:
             cfg["cache_odb"] = "dest"
+        # round 7: a destination whose puts are not atomic (a failed upload may leave a truncated object)
+        cfg["non_atomic"] = cfg["dest_kind"] == "remote" and rng.random() < 0.3
         sc.update(
             request=request, src=sorted(src - set(src_missing)), dest=sorted(dest), corrupt={},
             src_missing=sorted(src_missing), indexed=indexed, vanished=vanished,
